@@ -27,6 +27,8 @@
 #include <ompl/base/spaces/OwenStateSpace.h>
 #include <ompl/base/spaces/VanaStateSpace.h>
 #include <ompl/base/spaces/VanaOwenStateSpace.h>
+#include <ompl/base/spaces/Dubins3DMotionValidator.h>
+#include <ompl/base/SpaceInformation.h>
 
 namespace ob = ompl::base;
 using DSS = ob::DubinsStateSpace;
@@ -316,11 +318,23 @@ static bool setPose4(OSS::StateType *s, const std::vector<std::string> &t, size_
 
 static int runOwen(double rho, double pitch, double lo, double hi)
 {
-    OSS sp(rho, pitch);
+    auto space = std::make_shared<OSS>(rho, pitch);
+    OSS &sp = *space;
     ob::RealVectorBounds b(3);
     b.setLow(lo);
     b.setHigh(hi);
     sp.setBounds(b);
+    // for `owmv`: the real Dubins3DMotionValidator<OwenStateSpace> over a recording validity checker (valid iff z <= zmax)
+    auto si = std::make_shared<ob::SpaceInformation>(space);
+    double zmax = 0;
+    std::vector<std::string> asked;
+    si->setStateValidityChecker([&](const ob::State *st) {
+        auto q = st->as<OSS::StateType>();
+        asked.push_back(vp::bits((*q)[0]) + "," + vp::bits((*q)[1]) + "," + vp::bits((*q)[2]) + "," + vp::bits(q->yaw()));
+        return (*q)[2] <= zmax;
+    });
+    si->setup();
+    ob::Dubins3DMotionValidator<OSS> mv(si);
     auto *s1 = sp.allocState()->as<OSS::StateType>();
     auto *s2 = sp.allocState()->as<OSS::StateType>();
     auto *o = sp.allocState()->as<OSS::StateType>();
@@ -344,6 +358,34 @@ static int runOwen(double rho, double pitch, double lo, double hi)
             out(std::string("cat=") + static_cast<char>(p->category()) + " " + showPath(p->path_) + " r=" + vp::bits(p->turnRadius_) +
                 " dz=" + vp::bits(p->deltaZ_) + " phi=" + vp::bits(p->phi_) + " k=" + std::to_string(p->numTurns_) +
                 " len=" + vp::bits(p->length()));
+        }
+        else if ((op == "owmv" && t.size() == 11 || op == "owmvr" && t.size() == 13) && (t[1] == "2" || t[1] == "3") && setPose4(s1, t, 2) &&
+                 setPose4(s2, t, 6) && vp::parseBits(t[10]))
+        {
+            // `owmv <2|3> <s1> <s2> <zmax>` (+ `<root|none> <L>` recorded answers for drv_dubins in the `owmvr` form; ignored here)
+            zmax = *vp::parseBits(t[10]);
+            asked.clear();
+            unsigned v0 = mv.getValidMotionCount(), i0 = mv.getInvalidMotionCount();
+            bool res;
+            std::string lv = "none";
+            if (t[1] == "2")
+                res = mv.checkMotion(s1, s2);
+            else
+            {
+                std::pair<ob::State *, double> last(o, -1.);
+                (*o)[0] = (*o)[1] = (*o)[2] = 0;
+                o->yaw() = 0;
+                res = mv.checkMotion(s1, s2, last);
+                if (last.second != -1.)
+                    lv = vp::bits(last.second) + ":" + vp::bits((*o)[0]) + "," + vp::bits((*o)[1]) + "," + vp::bits((*o)[2]) + "," + vp::bits(o->yaw());
+            }
+            auto p = sp.getPath(s1, s2);
+            std::string q;
+            for (auto &a : asked)
+                q += (q.empty() ? "" : ";") + a;
+            out(std::string("res=") + (res ? "1" : "0") + " nd=" + (p ? std::to_string(sp.validSegmentCount(s1, s2)) : std::string("-")) + " L=" +
+                vp::bits(sp.getLongestValidSegmentLength()) + " q=" + std::to_string(asked.size()) + " " + (q.empty() ? "-" : q) + " lv=" + lv +
+                " dv=" + std::to_string(mv.getValidMotionCount() - v0) + " di=" + std::to_string(mv.getInvalidMotionCount() - i0));
         }
         else if (op == "owdist" && t.size() == 9 && setPose4(s1, t, 1) && setPose4(s2, t, 5))
             out("d=" + vp::bits(sp.distance(s1, s2)));
@@ -523,6 +565,9 @@ int main()
         h.pop_back();
     if (h.size() == 5 && h[0] == "vana" && kv("rho", h[1]) && kv("pitch", h[2]) && kv("lo", h[3]) && kv("hi", h[4]))
         return runVana(*kv("rho", h[1]), *kv("pitch", h[2]), *kv("lo", h[3]), *kv("hi", h[4]));
+    // optional 6th token `absphi=<0|1>`: tells drv_dubins whether PathType::length() of the source under test uses |phi_| (ignored here)
+    if (h.size() == 6 && h[0] == "owen" && h[5].rfind("absphi=", 0) == 0)
+        h.pop_back();
     if (h.size() == 5 && h[0] == "owen" && kv("rho", h[1]) && kv("pitch", h[2]) && kv("lo", h[3]) && kv("hi", h[4]))
         return runOwen(*kv("rho", h[1]), *kv("pitch", h[2]), *kv("lo", h[3]), *kv("hi", h[4]));
     std::cout << "bad-header\n";
